@@ -45,6 +45,9 @@ def gen_tree(rng):
 def gen_pattern(rng):
     n = rng.choice([1, 1, 2, 2, 3])
     segs = [rng.choice(SEGS) for _ in range(n)]
+    # no `**` right after a `**`: on such patterns doublestar's own Glob and PathMatch disagree with each other (`**/**/b`: PathMatch
+    # accepts `b`, Glob does not list it), so there is no single reading to hold the watcher to; they are outside the generated grammar
+    segs = [sg for k, sg in enumerate(segs) if not (sg == "**" and k and segs[k - 1] == "**")]
     return "/".join(segs)
 
 
